@@ -63,6 +63,7 @@ def detect_fixes(notes=None):
     if b is None:
         out["allocBypassFixed"] = prev("allocBypassFixed")
         out["f14Fixed"] = prev("f14Fixed")
+        out["f14ClearsAware"] = prev("f14ClearsAware")
     else:
         b = _strip_c_comments(b)
         m = re.search(r"if\s*\(\s*NULL\s*==\s*response\s*\)\s*\{(.*?)\n  \}", b, re.S)
@@ -73,6 +74,8 @@ def detect_fixes(notes=None):
         m = re.search(r"if\s*\(\s*MHD_NO\s*==\s*build_header_response\s*\(\s*connection\s*\)\s*\)\s*\{(.*?)MHD_pool_reset", b, re.S)
         blk = m.group(1) if m else ""
         out["f14Fixed"] = bool(m) and ("notify_completed" in blk or "MHD_connection_close_" in blk)
+        out["f14ClearsAware"] = bool(m) and ("MHD_connection_close_" in blk or
+                                             bool(re.search(r"client_aware\s*=\s*false", blk)))
     b = _func_body(conn, "MHD_connection_epoll_update_")
     if b is None:
         out["epollBypassFixed"] = prev("epollBypassFixed")
@@ -126,7 +129,7 @@ def gen_connstate(notes=None):
     for n in tnames:
         L.append("def %s : Nat := %s" % (_camel(n, "MHD_REQUEST_"), v[n]))
     L += ["", "/-- repairs present in connection.c (syntactic probes, see tools/props/C05.py) -/"]
-    for k in ("f9Fixed", "allocBypassFixed", "epollBypassFixed", "f14Fixed"):
+    for k in ("f9Fixed", "allocBypassFixed", "epollBypassFixed", "f14Fixed", "f14ClearsAware"):
         L.append("def %s : Bool := %s" % (k, "true" if fx[k] else "false"))
     L += ["", "end Mhd.Gen.ConnState", ""]
     return vlib.write_if_changed(os.path.join(extract.GEN, "ConnState.lean"), "\n".join(L))
@@ -740,7 +743,8 @@ class Spec:
     required_theorems = ["Mhd.C05.protocol_accepts", "Mhd.C05.protocol_complete", "Mhd.C05.aware_iff_open_request",
                          "Mhd.C05.closed_only_unaware", "Mhd.C05.protocol_accepts_fixed", "Mhd.C05.tree_f9_fixed",
                          "Mhd.C05.tree_other_repairs", "Mhd.C05.protocol_accepts_tree", "Mhd.C05.witness_f9",
-                         "Mhd.C05.witness_alloc_bypass", "Mhd.C05.witness_epoll_bypass", "Mhd.C05.witness_f14"]
+                         "Mhd.C05.witness_alloc_bypass", "Mhd.C05.witness_epoll_bypass", "Mhd.C05.witness_f14",
+                         "Mhd.C05.witness_f14_double_completion"]
     trusted_base = ["Lean 4 kernel", "axioms: propext, Classical.choice, Quot.sound at most (audited per theorem)",
                     "hand-written model lean/Mhd/Model/ConnSM.lean tied to connection.c/daemon.c by this run's correspondence "
                     "(callback sequence per connection + connection->state / client_aware at every settled point)",
